@@ -76,8 +76,8 @@ pub fn main_campaign() -> SimCampaign {
             witnesses: Some(vec![]),
             ..Flags::default()
         },
-        quick: 12_000,
-        thorough: 300_000,
+        quick: 30000,
+        thorough: 600000,
         nontrivial,
         probes: vec![],
         shape: None,
